@@ -5,7 +5,7 @@ import torch
 from jaxtyping import Float
 from torch import Tensor
 
-from linear_operator.operators._linear_operator import LinearOperator
+from linear_operator.operators._linear_operator import _inv_root_from_root, LinearOperator
 from linear_operator.operators.kronecker_product_linear_operator import KroneckerProductLinearOperator
 from linear_operator.operators.sum_linear_operator import SumLinearOperator
 
@@ -73,8 +73,10 @@ class SumKroneckerLinearOperator(SumLinearOperator):
         self: Float[LinearOperator, "... N N"]
     ) -> Union[Float[torch.Tensor, "... N N"], Float[LinearOperator, "... N N"]]:
         inner_mat = self._sum_formulation
+        # _sum_formulation is built from the inverse roots of the components of the second operator; the roots used here
+        # must be their exact inverses (a cached or default root_decomposition may stem from a different factorization)
         lt2_root = KroneckerProductLinearOperator(
-            *[lt.root_decomposition().root for lt in self.linear_ops[1].linear_ops]
+            *[_inv_root_from_root(lt.root_inv_decomposition().root) for lt in self.linear_ops[1].linear_ops]
         )
         inner_mat_root = inner_mat.root_decomposition().root
         root = lt2_root.matmul(inner_mat_root)
